@@ -1257,4 +1257,11 @@ def main(ctx):
         g = erandom.Generator(pool[c[2]], x=pool[c[1]], method="accum", rng=np.random.RandomState(c[3]))
         return [np.asarray(g.sample(3))]
 
-    call_sequences(ctx, "call-sequences", seq_pool, SEQ_CALLS, seq_run, lambda: [coords, erandom], depth=3, nodedup_depth=3)
+    def seq_mut(m, pool):
+        if m[1] == "scale":
+            pool[m[0]] *= 4.0
+        else:
+            pool[m[0]][:] = pool[m[0]][::-1].copy()
+
+    call_sequences(ctx, "call-sequences", seq_pool, SEQ_CALLS, seq_run, lambda: [coords, erandom], depth=3, nodedup_depth=3,
+                   mutations=[("cov", "scale"), ("gp", "reverse")], mutate=seq_mut, result_edits=True)
